@@ -28,9 +28,9 @@ LTYPES = [(T2, 'struct nv_lt'), (T1, 'struct nv_lt'),
           (r'^nano::linear_t$', 'struct nv_linear')]
 LOPAQUE = [r'^nano::(dataset_t|loss_t|logger_t|solver_t|param_spaces_t)$', r'^(nano::)?ml::params_t$', r'^std::vector<nano::param_space_t',
            r'^std::(__cxx11::)?(basic_)?string', r'^nano::string_t$']
-LCALLS = [(r'^tune\|', 'nv_tune({&1})!'), (r'^move\|', '{0}'), (r'^fit\|', 'linear_fit_inner({&0}, {&2}, {5}, {&7})'),
+LCALLS = [(r'^tune\|', 'nv_tune({&1})!'), (r'^move\|', '{0}'), (r'^fit\|', 'linear_fit_inner({&0}, {&1}, {&2}, {&3}, {&4}, {5}, {&6}, {&7})'),
           (r'^ctor\|std::any\|void \((nano::)?linear::result_t &&\)', 'nv_any_of_result({&0})'),
-          (r'^evaluate\|', 'linear_evaluate({&1}, {&3}, {&4}, {5})'),
+          (r'^evaluate\|', 'linear_evaluate({&0}, {&1}, {&2}, {&3}, {&4}, {5})'),
           (r'^make_tuple\|', '(struct nv_cb_ret){ {0}, {1}, {2} }'),
           (r'^make_file_logger\|', 'nv_opaque_value()'),
           (r'^operator=\|.*\|nano::tensor_t<nano::tensor_vector_storage_t, double, [12]>\|#2', '({0} = {1})'),
@@ -40,7 +40,7 @@ LCALLS = [(r'^tune\|', 'nv_tune({&1})!'), (r'^move\|', '{0}'), (r'^fit\|', 'line
           (r'^ctor\|nano::tensor_t<nano::tensor_carray_storage_t, long, 1>\|void \(const tensor_t<nano::tensor_vector_storage_t, long, 1', '{0}'),
           (r'^ctor\|(nano::)?(linear::)?result_t\|void \(nano::tensor1d_t, nano::tensor2d_t', 'nv_lresult_make({0}, {1}, {&2})'),
           (r'^ctor\|nano::tensor_t<nano::tensor_vector_storage_t, double, [12]>\|void \(const tensor_t<nano::tensor_carray_storage_t, double, [12]UL> &\)', '{0}'),
-          (r'^cat_dims\|', '(struct nv_dims4){ {0} }'),
+          (r'^arange\|', 'nv_arange({0}, {1})'), (r'^cat_dims\|', '(struct nv_dims4){ {0} }'),
           (r'^ctor\|nano::tensor_t<nano::tensor_vector_storage_t, double, 4>\|', 'nv_lt_make4({0})'),
           (r'^ctor\|nano::tensor_t<nano::tensor_vector_storage_t, double, 2>\|void \((int|long), (int|long)\)', 'nv_lt_make2({0}, {1})'),
           (r'^ctor\|nano::tensor_t<nano::tensor_carray_storage_t, double, 4>\|void \(const tensor_t<nano::tensor_marray_storage_t, double, 4', 'nv_lt_of_view({0})'),
@@ -138,5 +138,5 @@ def targets():
     return [Target('linear_fit_inner', lambda: [g()['inner']], LH, enforce='linear_fit_inner', enums=EN),
             Target('linear_evaluate_chunk', lambda: [g()['chunk']], LH, enforce='linear_evaluate_chunk', enums=EN),
             Target('linear_evaluate', lambda: [g()['evaluate'], g()['chunk']], LH, enforce='linear_evaluate', replace=['linear_evaluate_chunk'], enums=EN, loops=1),
-            Target('linear_fit_callback', lambda: [f()['callback'], g()['inner']], LH, enforce='linear_fit_callback', replace=['linear_fit_inner'], enums=EN),
-            Target('linear_model_fit', lambda: [f()['fit'], g()['inner']], LH, enforce='linear_model_fit', replace=['linear_fit_inner'], enums=EN)]
+            Target('linear_fit_callback', lambda: [f()['callback'], g()['inner'], g()['evaluate']], LH, enforce='linear_fit_callback', replace=['linear_fit_inner', 'linear_evaluate'], enums=EN),
+            Target('linear_model_fit', lambda: [f()['fit'], g()['inner'], g()['evaluate']], LH, enforce='linear_model_fit', replace=['linear_fit_inner', 'linear_evaluate'], enums=EN)]
